@@ -34,7 +34,8 @@ BOUND = (
     "mode cycling with (i div 8) mod 6 through absent / before the first instant / exactly on the k-th scheduled "
     "instant / between two instants (one minute after an instant, or a later day 10:00) / on a 21:00 close that is "
     "not necessarily scheduled / on a 14:30 open; alpha model fixed weights on a static universe (2 of 4), fixed "
-    "weights or top-N momentum on a dynamic universe whose last asset enters mid-range (2 of 4); long-only "
+    "weights or top-N momentum on a dynamic universe whose last asset enters mid-range, or fixed weights on a universe whose last "
+    "asset LEAVES mid-range (2 of 4); long-only "
     "(buffer .0-.25) or long/short (leverage 1-2), zero or percentage fees. quick: first %d cases (or fewer if "
     "budget_s runs out); thorough: first %d cases. Equity recomputation compared to 1e-9 relative, everything "
     "else exactly. Runs with no executed rebalance are outside the allocation-table clause (as stated in the "
@@ -89,6 +90,10 @@ def gen_case(seed, i):
         entry = days[rng.randrange(1, max(2, len(days) - 1))]
         universe = {"kind": "dynamic",
                     "dates": {symbols[-1]: "%s %s" % (entry, rng.choice(["00:00", "14:30", "21:00"]))}}
+    if akind == "universe_fixed" and rng.random() < 0.5:
+        # the last asset LEAVES the universe mid-range: later weight vectors have fewer keys than earlier ones
+        leave = days[rng.randrange(max(1, len(days) // 3), max(2, len(days) - 1))]
+        universe = {"kind": "window", "exits": {symbols[-1]: "%s %s" % (leave, rng.choice(["00:00", "21:00"]))}}
     if akind in ("fixed", "universe_fixed"):
         ws = {s: (rng.choice([0.2, 0.5, 1.0, 2.0]) if long_only else rng.choice([-1.0, -0.5, 0.5, 1.0]))
               for s in symbols}
